@@ -182,6 +182,25 @@ impl World {
         v.push("whale".into());
         v.push("liquidator".into());
         v.extend(World::shadow_accounts(&self.cfg));
+        for a in World::role_accounts(&self.cfg) {
+            if !v.contains(&a) {
+                v.push(a);
+            }
+        }
+        v
+    }
+
+    /// role holders (and the accounts roles are handed to) as traders, in worlds that ask for it
+    pub fn role_accounts(cfg: &WorldCfg) -> Vec<String> {
+        let mut v: Vec<String> = vec![];
+        if cfg.kind == WorldKind::Standard && cfg.roles_trade {
+            let r = &cfg.roles;
+            for a in [r.owner.as_str(), r.pauser.as_str(), r.if_owner.as_str(), r.fp_owner.as_str(), r.pf_owner.as_str(), r.vamm_owner.as_str(), "newowner", "stranger", "keeper"] {
+                if !v.iter().any(|x| x == a) {
+                    v.push(a.to_string());
+                }
+            }
+        }
         v
     }
 
@@ -211,8 +230,16 @@ impl World {
         }
         funded.push(("whale".into(), whale_bal));
         funded.push(("liquidator".into(), big));
-        funded.push(("keeper".into(), d));
-        funded.push(("stranger".into(), d));
+        let role_traders = World::role_accounts(cfg);
+        for a in role_traders.iter() {
+            funded.push((a.clone(), big));
+        }
+        if !role_traders.iter().any(|a| a == "keeper") {
+            funded.push(("keeper".into(), d));
+        }
+        if !role_traders.iter().any(|a| a == "stranger") {
+            funded.push(("stranger".into(), d));
+        }
         funded.push((TREASURY.into(), treasury_bal));
 
         let start_block = BlockInfo {
